@@ -1,4 +1,4 @@
-(** SemFacts.v — reflection obligation: every add/adc/sub/sbb/cmp/and/or/xor/test form of the lifted dump regenerated from
+(** SemFacts.v — reflection obligation: every inc/dec/neg form and every add/adc/sub/sbb/cmp/and/or/xor/test form of the lifted dump regenerated from
     /repo whose operands have equal width is syntactically the mirror of Sem.v applied to its own operands. *)
 From Coq Require Import ZArith List Bool String.
 From Mx Require Import Expr Wf Sem.
@@ -9,7 +9,11 @@ Definition tie_ok (c : lcase) : bool :=
   | Some k, Some l => match operands_of k l with
                       | Some (a, b) => if (size a =? size b)%Z then is_mirror k l else true     (* unequal widths: C11 class, known *)
                       | None => false end
-  | _, _ => true
+  | _, _ =>
+      match una_of (lc_mnemo c), lc_lift c with
+      | Some k, Some l => is_mirror_u k l          (* inc / dec / neg: every regenerated form *)
+      | _, _ => true
+      end
   end.
 Definition n_tied : nat := fold_left (fun acc sh => fold_left (fun acc c => match alu_of (lc_mnemo c), lc_lift c with Some k, Some l => if is_mirror k l then S acc else acc | _, _ => acc end) sh acc) shards O.
 Lemma alu_forms_are_mirrors : forallb (forallb tie_ok) shards = true.
@@ -17,4 +21,7 @@ Proof. vm_compute. reflexivity. Qed.
 Lemma alu_forms_tied_lifted : forall sh c, In sh shards -> In c sh -> tie_ok c = true.
 Proof. intros sh c Hs Hc. pose proof alu_forms_are_mirrors as H. rewrite forallb_forall in H. specialize (H _ Hs). rewrite forallb_forall in H. apply H. assumption. Qed.
 Lemma many_forms_tied : (2000 <= n_tied)%nat.
+Proof. vm_compute. repeat constructor. Qed.
+Definition n_tied_u : nat := fold_left (fun acc sh => fold_left (fun acc c => match una_of (lc_mnemo c), lc_lift c with Some k, Some l => if is_mirror_u k l then S acc else acc | _, _ => acc end) sh acc) shards O.
+Lemma many_unary_forms_tied : (150 <= n_tied_u)%nat.
 Proof. vm_compute. repeat constructor. Qed.
